@@ -66,6 +66,8 @@ pub enum Op {
     DropStakker,
     /// clone/drop storm on the reference types of actor a
     Storm { a: u8, n: u8 },
+    /// Core::shutdown(Stopped) / shutdown_reason() (event-loop flag; must not affect time or queues)
+    Shutdown { take: bool },
 }
 
 #[derive(Clone, Debug, Default)]
@@ -232,21 +234,21 @@ impl<'a> Dec<'a> {
         // index: 0 Defer 1 Burst 2 Lazy 3 Idle 4 Timer 5 TimerDel 6 NewActor 7 Call 8 PrepCall
         //        9 MakeRet 10 MakeFwd 11 UseRet 12 UseFwd 13 DropH 14 CloneActor 15 Owned 16 Anon
         //        17 MoveH 18 TakeH 19 MakeDropDefer 20 MakeDeferrer 21 ForgetActor 22 Kill
-        //        23 Stop 24 Fail 25 ReturnSome 26 Run 27 Query 28 DropStakker 29 Storm
-        let mut w: [u32; 30] = match self.focus {
-            Focus::Neutral => [8, 1, 3, 2, 3, 1, 4, 8, 2, 3, 2, 3, 2, 3, 1, 1, 1, 2, 2, 2, 1, 1, 2, 2, 2, 3, 10, 1, 1, 1],
-            Focus::Queue => [16, 4, 4, 2, 4, 1, 2, 4, 1, 1, 1, 1, 1, 2, 0, 0, 0, 1, 1, 5, 2, 0, 0, 1, 0, 2, 10, 0, 2, 0],
-            Focus::Calls => [4, 0, 2, 1, 3, 0, 6, 14, 6, 2, 3, 2, 3, 2, 1, 0, 0, 1, 1, 1, 0, 0, 2, 3, 2, 6, 10, 1, 0, 0],
-            Focus::Term => [3, 0, 1, 1, 2, 0, 6, 10, 4, 1, 1, 1, 1, 4, 0, 1, 0, 2, 1, 0, 0, 0, 8, 6, 6, 4, 10, 2, 0, 0],
-            Focus::Own => [4, 0, 1, 1, 2, 0, 8, 6, 2, 1, 1, 1, 1, 8, 3, 5, 3, 5, 4, 0, 0, 2, 1, 2, 1, 5, 10, 2, 0, 2],
-            Focus::Ret => [4, 0, 2, 2, 4, 3, 4, 8, 2, 12, 2, 8, 1, 6, 0, 0, 0, 4, 3, 0, 0, 0, 2, 2, 1, 3, 10, 0, 2, 0],
-            Focus::Lazy => [8, 0, 10, 8, 4, 1, 2, 4, 1, 0, 0, 0, 0, 1, 0, 0, 0, 0, 0, 1, 0, 0, 0, 1, 0, 2, 14, 0, 0, 0],
-            Focus::Time => [6, 0, 4, 4, 6, 1, 2, 4, 1, 0, 0, 0, 0, 1, 0, 0, 0, 0, 0, 0, 0, 0, 0, 1, 0, 2, 18, 1, 0, 0],
-            Focus::Release => [6, 2, 2, 2, 3, 2, 5, 6, 2, 3, 3, 3, 3, 6, 4, 3, 2, 3, 3, 3, 3, 3, 2, 2, 1, 3, 10, 1, 2, 6],
+        //        23 Stop 24 Fail 25 ReturnSome 26 Run 27 Query 28 DropStakker 29 Storm 30 Shutdown
+        let mut w: [u32; 31] = match self.focus {
+            Focus::Neutral => [8, 1, 3, 2, 3, 1, 4, 8, 2, 3, 2, 3, 2, 3, 1, 1, 1, 2, 2, 2, 1, 1, 2, 2, 2, 3, 10, 1, 1, 1, 1],
+            Focus::Queue => [16, 4, 4, 2, 4, 1, 2, 4, 1, 1, 1, 1, 1, 2, 0, 0, 0, 1, 1, 5, 2, 0, 0, 1, 0, 2, 10, 0, 2, 0, 1],
+            Focus::Calls => [4, 0, 2, 1, 3, 0, 6, 14, 6, 2, 3, 2, 3, 2, 1, 0, 0, 1, 1, 1, 0, 0, 2, 3, 2, 6, 10, 1, 0, 0, 1],
+            Focus::Term => [3, 0, 1, 1, 2, 0, 6, 10, 4, 1, 1, 1, 1, 4, 0, 1, 0, 2, 1, 0, 0, 0, 8, 6, 6, 4, 10, 2, 0, 0, 1],
+            Focus::Own => [4, 0, 1, 1, 2, 0, 8, 6, 2, 1, 1, 1, 1, 8, 3, 5, 3, 5, 4, 0, 0, 2, 1, 2, 1, 5, 10, 2, 0, 2, 1],
+            Focus::Ret => [4, 0, 2, 2, 4, 3, 4, 8, 2, 12, 2, 8, 1, 6, 0, 0, 0, 4, 3, 0, 0, 0, 2, 2, 1, 3, 10, 0, 2, 0, 1],
+            Focus::Lazy => [8, 0, 10, 8, 4, 1, 2, 4, 1, 0, 0, 0, 0, 1, 0, 0, 0, 0, 0, 1, 0, 0, 0, 1, 0, 2, 14, 0, 0, 0, 1],
+            Focus::Time => [6, 0, 4, 4, 6, 1, 2, 4, 1, 0, 0, 0, 0, 1, 0, 0, 0, 0, 0, 0, 0, 0, 0, 1, 0, 2, 18, 1, 0, 0, 4],
+            Focus::Release => [6, 2, 2, 2, 3, 2, 5, 6, 2, 3, 3, 3, 3, 6, 4, 3, 2, 3, 3, 3, 3, 3, 2, 2, 1, 3, 10, 1, 2, 6, 1],
         };
         let core_ctx = ctx != Ctx::NoCore;
         if !core_ctx {
-            for i in [1usize, 2, 3, 4, 5, 6, 9, 10, 19, 20, 27] {
+            for i in [1usize, 2, 3, 4, 5, 6, 9, 10, 19, 20, 27, 30] {
                 w[i] = 0;
             }
             w[7] /= 2; // calls from handlers use call!([actor], ..) only
@@ -367,7 +369,8 @@ impl<'a> Dec<'a> {
             }
             27 => Op::Query { a: self.c.u8(), body: self.body(Ctx::Ready, depth + 2) },
             28 => Op::DropStakker,
-            _ => Op::Storm { a: self.c.u8(), n: 1 + self.c.pick(40) as u8 },
+            29 => Op::Storm { a: self.c.u8(), n: 1 + self.c.pick(40) as u8 },
+            _ => Op::Shutdown { take: self.c.bool() },
         })
     }
 }
